@@ -20,6 +20,9 @@ use std::backtrace::Backtrace;
 #[derive(Debug)] pub struct E(pub u8);
 impl fmt::Display for E { fn fmt(&self, f: &mut fmt::Formatter<'_>) -> fmt::Result { f.write_str("E") } }
 impl Error for E {}
+// inherent methods named like Error's: method-call syntax on the source field inside an expansion would reach these
+impl E { pub fn source(&self) -> Option<&(dyn Error + 'static)> { Some(&POISON) } }
+pub static POISON: E = E(255);
 #[derive(Debug)] pub struct NotErr(pub u8);
 pub trait Tr { type Assoc; }
 #[derive(Debug)] pub struct HoldsErr; impl Tr for HoldsErr { type Assoc = E; }
